@@ -254,6 +254,18 @@ static void script(int nfiles, const int *fds)
 			}
 		}
 		{
+			/* the OS-specific set-up of the translation (symbols, utsname, lowcore … read from the dump) */
+			static const char *const os[] = { "linux", "xen" };
+			unsigned k;
+			for (k = 0; k < 2; ++k) {
+				OP("set addrxlat.ostype %s", os[k]);
+				ST(kdump_set_string_attr(ctx, "addrxlat.ostype", os[k]));
+				do_read(ctx, KDUMP_KVADDR, 0xffff880000000000ULL + firstfile * ps, 64);
+				do_read(ctx, KDUMP_KPHYSADDR, firstfile * ps, 64);
+				do_read(ctx, KDUMP_KVADDR, 0xffffffff81000000ULL, 16);
+			}
+		}
+		{
 			char *s = NULL;
 			OP("read_string");
 			if (ST(kdump_read_string(ctx, KDUMP_MACHPHYSADDR, firstfile * ps, &s)) == KDUMP_OK) { mix(strlen(s)); free(s); }
